@@ -4,6 +4,7 @@
 //!   [u32 LE payload length][cwd NUL arg1 NUL arg2 NUL ... ]   (argv[0] is not recorded)
 //! then terminates as VERIF_REC_SCRIPT prescribes for this invocation index
 //! (comma separated: a number = exit status, sN = die by signal N; default 0).
+//! VERIF_REC_STDOUT set: also writes "R<index>\0" to stdout.
 //! VERIF_REC_SLEEP_MS = N: sleep N ms after the record is written and before terminating.
 use std::io::{Read, Seek, SeekFrom, Write};
 use std::os::unix::ffi::OsStrExt;
@@ -42,6 +43,13 @@ fn main() {
         rec.extend_from_slice(&(payload.len() as u32).to_le_bytes());
         rec.extend_from_slice(&payload);
         f.write_all(&rec).expect("rec: write");
+    }
+    // VERIF_REC_STDOUT: also write "R<index>\0" to stdout (the order in which the caller's own
+    // output and its children's output reach a shared stdout)
+    if std::env::var_os("VERIF_REC_STDOUT").is_some() {
+        let mut o = std::io::stdout();
+        let _ = write!(o, "R{index}\0");
+        let _ = o.flush();
     }
     if let Some(ms) = std::env::var("VERIF_REC_SLEEP_MS").ok().and_then(|v| v.parse::<u64>().ok()) {
         std::thread::sleep(std::time::Duration::from_millis(ms));
